@@ -146,14 +146,29 @@ KindProgV(X, Y, crit) ==
   IN [key |-> "kinds/" \o (IF crit THEN "crit/" ELSE "") \o ToString(X) \o ToString(Y), leaves |-> leaves, code |-> wraps \o SetToSeq(bin \cup rawok \cup cmp \cup un \cup conv \cup so \cup misc)]
 \* sums whose value depends on the order of addition (0.1 + 0.2 + 0.3 + 0.6 is 1.2000000000000002 from the left and
 \* 1.2 pairwise): registers 1..5 = the numbers, 6..10 = their wrap-copies
+\* registers: 1..5 the numbers, 6..10 the plain floats of the same values, 11..15 / 16..20 their wrap-copies; the container
+\* sums also MIX the two (a float after a dual number: the fold still runs from the left, whatever the kinds)
 SumCritProg(kind) ==
   LET vals == << FOfRat(1, 10), FOfRat(2, 10), FOfRat(3, 10), FOfRat(6, 10), FOfRat(7, 10) >>
-      leaves == [i \in 1..5 |-> Leaf(kind, i, vals[i], <<"a", "b">>)]
-      wraps == [i \in 1..5 |-> [op |-> "wrap", a |-> i]]
+      leaves == [i \in 1..5 |-> Leaf(kind, i, vals[i], <<"a", "b">>)] \o [i \in 1..5 |-> LeafF(vals[i])]
+      wraps == [i \in 1..10 |-> [op |-> "wrap", a |-> i]]
       lists == {<<1, 2, 3, 4>>, <<4, 3, 2, 1>>, <<1, 2, 3, 4, 5>>, <<5, 1, 4, 2, 3>>, <<2, 4, 1, 3>>, <<3, 3, 3, 3, 3, 3>>}
+      mixed == {<<11, 17, 18>>, <<17, 11, 18>>, <<16, 17, 13>>, <<11, 17, 18, 19>>, <<16, 12, 18, 14, 20>>, <<15, 16, 17, 18, 19>>, <<16, 17, 18, 19>>, <<19, 18, 12, 16>>}
   IN [key |-> "order/sumcrit/" \o kind, leaves |-> leaves,
       code |-> wraps \o SetToSeq({[op |-> "sum", kind |-> kind, regs |-> l] : l \in lists}
-                                 \cup {[op |-> "sum", kind |-> "N", regs |-> [i \in 1..Len(l) |-> l[i] + 5]] : l \in lists})]
+                                 \cup {[op |-> "sum", kind |-> "N", regs |-> [i \in 1..Len(l) |-> l[i] + 10]] : l \in lists}
+                                 \cup {[op |-> "sum", kind |-> "N", regs |-> l] : l \in mixed})]
+\* values a hair apart (neighbouring doubles, and 0 against 5.55e-17): every comparison is the float comparison, number on
+\* either side, bare and wrapped - nothing is "equal within a margin"
+\* registers: 1 kind(1)  2 kind(0.9999999999999999)  3 kind(5.55e-17)  4 kind(0)  5 F(1)  6 F(0.9999999999999999)  7 F(5.55e-17)  8 F(0); 9..16 wraps
+NearProg(kind) ==
+  LET vs == << FOfInt(1), FOfStr("0.9999999999999999"), FOfStr("5.55e-17"), FZ >>
+      leaves == [i \in 1..4 |-> Leaf(kind, i, vs[i], <<"a">>)] \o [i \in 1..4 |-> LeafF(vs[i])]
+      wraps == [i \in 1..8 |-> [op |-> "wrap", a |-> i]]
+      ops == {"lt", "le", "gt", "ge", "eq", "ne"}
+      cmp == {Ins2(op, a, b) : op \in ops, a \in 1..8, b \in 1..8} \cup {Ins2(op, a, b) : op \in ops, a \in 9..16, b \in 9..16}
+             \cup {Ins2(op, a, b) : op \in ops, a \in 9..16, b \in 5..8} \cup {Ins2(op, a, b) : op \in ops, a \in 5..8, b \in 9..16}
+  IN [key |-> "order/near/" \o kind, leaves |-> leaves, code |-> wraps \o SetToSeq(cmp)]
 \* sign predicates exactly at zero (and at -0.0), bare and inside the container: the container must answer what the
 \* contained type answers
 \* registers: 1 F(0.0)  2 F(-0.0)  3 D1(0.0)  4 D2(0.0)  5 D1(-0.0)  6 F(1.5)
@@ -287,7 +302,7 @@ TailProg(kind) ==
 TailProgs == {TailProg("D1"), TailProg("D2")}
 
 Family == IOEnv.FAMILY
-Out == CASE Family = "layout" -> LayoutProgs [] Family = "read" -> ReadProgs [] Family = "kinds" -> KindProgs [] Family = "order" -> OrderProgs \cup {SumCritProg("D1"), SumCritProg("D2"), NanProg("D1"), NanProg("D2")} [] Family = "py" -> PyProgs [] Family = "tails" -> TailProgs
+Out == CASE Family = "layout" -> LayoutProgs [] Family = "read" -> ReadProgs [] Family = "kinds" -> KindProgs [] Family = "order" -> OrderProgs \cup {SumCritProg("D1"), SumCritProg("D2"), NanProg("D1"), NanProg("D2"), NearProg("D1"), NearProg("D2")} [] Family = "py" -> PyProgs [] Family = "tails" -> TailProgs
 ASSUME ndJsonSerialize(IOEnv.OUT, SetToSeq(Out))
 ASSUME PrintT(<<"GEN", Family, Cardinality(Out)>>)
 VARIABLE x
